@@ -64,7 +64,7 @@ func ecPayload(n int, seed uint64) []byte {
 
 func runECCase(c *ecCase) (vs []Violation) {
 	runCounter++
-	dir := filepath.Join(RunDirBase, fmt.Sprintf("e%d", runCounter))
+	dir := filepath.Join(RunDirBase, "e")
 	os.RemoveAll(dir)
 	s := sim.New(sim.Config{Seed: c.Seed, Policy: "seq"})
 	w, err := sim.NewWorld(s, dir)
@@ -472,7 +472,7 @@ func ECCaseMain() int {
 		return 2
 	}
 	vs := runECCase(&c)
-	os.RemoveAll(RunDirBase)
+	cleanupRunDir()
 	os.Stdout.Write(mustJSON(vs))
 	return 0
 }
